@@ -134,10 +134,7 @@ nni_url_canonify_uri(char *out)
 	size_t m = nondet_size_t();
 	__CPROVER_assume(m <= l);
 	g_canon_calls++;
-	for (size_t i = 0; i < m; i++) {
-		out[i] = (char) nondet_u8();
-	}
-	out[m]     = 0;
+	if (m < l) { out[m] = 0; }
 	g_canon_rv = nondet_bool() ? NNG_OK : NNG_EINVAL;
 	return (g_canon_rv);
 }
